@@ -16,7 +16,6 @@ import (
 	"io"
 	"math/rand"
 	"net"
-	"reflect"
 	"sort"
 	"strings"
 	"time"
@@ -56,30 +55,66 @@ var allIDs = []tls.ClientHelloID{
 
 func idName(id tls.ClientHelloID) string { return id.Client + "_" + id.Version }
 
-var (
-	ptrBoring = reflect.ValueOf(tls.BoringPaddingStyle).Pointer()
-	ptrAlways = reflect.ValueOf(tls.AlwaysPadToLen(0)).Pointer()
-)
-
 // padInfo: what the runner knows about a padding extension before the build
 type padInfo struct {
-	pol  string // "none" | "boring" | "always" | "fromraw"
+	pol  string // "none" | "boring" | "always" | "fromraw" | "unknown"
 	n    int    // AlwaysPadToLen argument when pol == "always"
 	plen int
 	will bool
 }
 
-func polOf(pe *tls.UtlsPaddingExtension) string {
-	if pe.GetPaddingLen == nil {
-		return "none"
+// reference functors, written from the documentation of the two policies
+func refPadTo(target, u int, active bool) (int, bool) {
+	if active && u < target {
+		if target-u >= 5 {
+			return target - u - 4, true
+		}
+		return 1, true
 	}
-	switch reflect.ValueOf(pe.GetPaddingLen).Pointer() {
-	case ptrBoring:
-		return "boring"
-	case ptrAlways:
-		return "always"
+	return 0, false
+}
+
+const probeMax = 1300
+
+// polOf classifies a GetPaddingLen functor by its behaviour on every unpadded
+// length up to probeMax (function values cannot be compared, and inlining gives
+// each AlwaysPadToLen call site its own closure code).
+func polOf(pe *tls.UtlsPaddingExtension) (string, int) {
+	f := pe.GetPaddingLen
+	if f == nil {
+		return "none", 0
 	}
-	return "unknown"
+	same := func(ref func(int) (int, bool)) bool {
+		for u := 0; u <= probeMax; u++ {
+			l1, w1 := f(u)
+			l2, w2 := ref(u)
+			if l1 != l2 || w1 != w2 {
+				return false
+			}
+		}
+		return true
+	}
+	if same(func(u int) (int, bool) { return refPadTo(512, u, u > 255) }) {
+		return "boring", 0
+	}
+	// AlwaysPadToLen(n): n is the first length that is not padded
+	n := 0
+	if l0, w0 := f(0); w0 {
+		n = l0 + 4
+		if l0 == 1 {
+			for n = 1; n <= 5; n++ {
+				if _, w := f(n); !w {
+					break
+				}
+			}
+		}
+	}
+	if same(func(u int) (int, bool) { return refPadTo(n, u, true) }) {
+		if l, w := f(n); l == 0 && !w {
+			return "always", n
+		}
+	}
+	return "unknown", 0
 }
 
 func hostOfLen(n int) string {
@@ -124,7 +159,7 @@ func (v variant) String() string {
 
 // buildConn applies spec to a fresh UConn and marshals the ClientHello.
 func buildConn(spec *tls.ClientHelloSpec, v variant, seed int64) (*tls.UConn, error) {
-	cfg := &tls.Config{ServerName: hostOfLen(v.sni), InsecureSkipVerify: true,
+	cfg := &tls.Config{ServerName: hostOfLen(v.sni), InsecureSkipVerify: true, OmitEmptyPsk: true,
 		Rand: seedReader{rand.New(rand.NewSource(seed))}}
 	uc := tls.UClient(nullConn{}, cfg, tls.HelloCustom)
 	if v.alpn != nil {
@@ -147,11 +182,12 @@ func buildConn(spec *tls.ClientHelloSpec, v variant, seed int64) (*tls.UConn, er
 	return uc, uc.BuildHandshakeState()
 }
 
-func padInfos(spec *tls.ClientHelloSpec, alwaysN int) map[*tls.UtlsPaddingExtension]padInfo {
+func padInfos(spec *tls.ClientHelloSpec) map[*tls.UtlsPaddingExtension]padInfo {
 	m := map[*tls.UtlsPaddingExtension]padInfo{}
 	for _, e := range spec.Extensions {
 		if pe, ok := e.(*tls.UtlsPaddingExtension); ok {
-			m[pe] = padInfo{pol: polOf(pe), n: alwaysN, plen: pe.PaddingLen, will: pe.WillPad}
+			pol, n := polOf(pe)
+			m[pe] = padInfo{pol: pol, n: n, plen: pe.PaddingLen, will: pe.WillPad}
 		}
 	}
 	return m
@@ -201,12 +237,20 @@ func items(uc *tls.UConn, pads map[*tls.UtlsPaddingExtension]padInfo, block []by
 		}
 		off += l
 		_, psk := e.(tls.PreSharedKeyExtension)
-		out = append(out, fmt.Sprintf("CFixed %s %s", vh.Bool(psk), vh.Bytes(body)))
+		out = append(out, fmt.Sprintf("CFixed %s %s", vh.Bool(psk), hx(body)))
 	}
 	if haveRaw && off != len(block) {
 		return nil, false
 	}
 	return out, true
+}
+
+// hx: a byte string as the Coq term (hx len 0x<hex>), see Corr/C05Corr.v
+func hx(b []byte) string {
+	if len(b) == 0 {
+		return "[]"
+	}
+	return fmt.Sprintf("(hx %d 0x%s)", len(b), vh.Hex(b))
 }
 
 func u16list(xs []uint16) string {
@@ -235,15 +279,15 @@ func emitCase(c *vh.Ctx, kind, key string, uc *tls.UConn, berr error, pads map[*
 			return
 		}
 		block = p.extBlock
-		obs = "(OBytes " + vh.Bytes(h.Raw) + ")"
+		obs = "(OBytes " + hx(h.Raw) + ")"
 	}
 	its, ok := items(uc, pads, block, haveRaw)
 	if !ok {
 		c.Fail(key, "extension lengths (Len) do not tile the emitted extension block", key, vh.Hex(h.Raw), "sum of Len() == block length")
 		return
 	}
-	args := fmt.Sprintf("%d %s %s %s %s [%s] %s", h.Vers, vh.Bytes(h.Random), vh.Bytes(h.SessionId),
-		u16list(h.CipherSuites), vh.Bytes(h.CompressionMethods), strings.Join(its, "; "), obs)
+	args := fmt.Sprintf("%d %s %s %s %s [%s] %s", h.Vers, hx(h.Random), hx(h.SessionId),
+		u16list(h.CipherSuites), hx(h.CompressionMethods), strings.Join(its, "; "), obs)
 	term := "CMarshal " + args
 	if fromRaw > 0 {
 		term = fmt.Sprintf("CFromRaw %d %s", fromRaw, args)
@@ -262,8 +306,8 @@ func paddingParrots(c *vh.Ctx) []tls.ClientHelloID {
 		}
 		for _, e := range spec.Extensions {
 			if pe, ok := e.(*tls.UtlsPaddingExtension); ok {
-				if polOf(pe) != "boring" {
-					c.Fail("parrot-policy/"+idName(id), "parrot's padding extension does not use BoringPaddingStyle", idName(id), polOf(pe), "boring")
+				if pol, _ := polOf(pe); pol != "boring" {
+					c.Fail("parrot-policy/"+idName(id), "parrot's padding extension does not use BoringPaddingStyle", idName(id), pol, "boring")
 				}
 				out = append(out, id)
 				break
@@ -289,13 +333,10 @@ func parrotCase(c *vh.Ctx, id tls.ClientHelloID, v variant) (unpadded int, ok bo
 	if err != nil {
 		return 0, false
 	}
-	pads := padInfos(&spec, 0)
+	pads := padInfos(&spec)
 	uc, berr := buildConn(&spec, v, c.Seed^int64(len(key))*7919)
 	if berr != nil {
 		c.Fail(key, "BuildHandshakeState failed for a stock parrot", key, fmt.Sprint(berr), "ClientHello")
-		if uc.HandshakeState.Hello != nil {
-			emitCase(c, "parrot", key, uc, berr, pads, 0, false)
-		}
 		return 0, false
 	}
 	raw := uc.HandshakeState.Hello.Raw
